@@ -3,6 +3,6 @@ CONSTANTS
   MaxTok = 0
   Mode = "nested"
   Depth = 3
-  DeepAll = FALSE
+  DeepAll = TRUE
 INVARIANT GenInv
 CHECK_DEADLOCK FALSE
